@@ -20,8 +20,15 @@ static Verdict run_c18(const Case &c)
   };
   ChildResult r = run_in_child([&]() {
     Ser s;
-    s.blob(wapi::encrypt(e.P, e.key, e.seed, e.cmode, e.hmode, pc).ser());
-    s.blob(wapi::encrypt(e.P, e.key, seed2, e.cmode, e.hmode, pc).ser());
+    // when both encryptions use the same seed they are handed the same seed BUFFER (a caller that collects its random
+    // text once): the second file must still carry the IV chain of that seed
+    bytes sb = e.seed;
+    sb.push_back(0);
+    wapi::PipeCfg pc1 = pc, pc2 = pc;
+    if (seed2 == e.seed)
+      pc1.seed_buf = pc2.seed_buf = sb.data();
+    s.blob(wapi::encrypt(e.P, e.key, e.seed, e.cmode, e.hmode, pc1).ser());
+    s.blob(wapi::encrypt(e.P, e.key, seed2, e.cmode, e.hmode, pc2).ser());
     return s.b;
   });
   if (r.status == CH_TIMEOUT)
